@@ -3,6 +3,7 @@ import DimodProofs.CqmHistory
 import DimodProofs.CqmHistory2
 import DimodProofs.CqmHistory3
 import DimodProofs.CqmHistory4
+import DimodProofs.CqmHistory5
 
 /-! # C05 — a CQM keeps every expression attached to the right variables
 
@@ -828,6 +829,50 @@ example :
     (∀ k, k < ops.length → ((demo.run (ops.take k)).step (ops.getD k .deepcopy)).2 = none)
     ∧ ((demo.run (ops.take 1)).cons.map (·.discrete)) = [false, true]
     ∧ ((demo.run ops).cons.map (·.discrete)) = [false, false] := by
+  decide +kernel
+
+/-! ## Round 8: `flip_variable` of a BINARY variable as a FUNCTION; every operation, per step and per history -/
+
+/-- **`flip_variable(v)` is a function of what the model shows.**  `LCqm.flipF s lin v`: `s ↦ −s` in every expression when `v`
+    is SPIN; when `v` is BINARY, `x ↦ 1 − x` in every expression and then the mark of exactly those constraints is cleared
+    that are marked, one-hot AFTER the substitution and mention `v` (`LCons.isOnehotWith`: `is_linear()` of the stored
+    expression — the one observation a polynomial does not show, passed in as `lin` —, at least two variables, sense `==`,
+    offset 0, every variable BINARY, every linear bias equal to the right-hand side); an error otherwise.  From any reachable
+    state, a `flip_variable` call that returns leaves exactly that model; `lin` is `linFlags` = the `is_linear()` observation
+    of every constraint BEFORE the call (the substitution keeps every adjacency key: `linFlags_mapSubstitute`).
+    This closes the gap of `history_refines_every_op_partial` / `history_refines_builders_partial` (the BINARY branch). -/
+theorem flip_variable_is_a_function (pre : List Cqm.Op) (hpre : ∀ op ∈ pre, OpOK op) (v : Label) :
+    let m := ({} : Cqm).run pre
+    (m.step (.flipVariable v)).2 = none →
+      (absCqm m).flipF (linFlags m) v = some (absCqm (m.step (.flipVariable v)).1) := by
+  intro m hok
+  have hinv : RefInv m := ⟨history_inv pre hpre, history_labels pre, history_keysym pre hpre, history_sorted pre hpre⟩
+  exact refines_flipF hinv v (Prod.ext rfl hok)
+
+/-- **The history theorem, every operation, as a function, no `_partial`.**  `specStepObs s lin op` is `specStepFull s op` for
+    every operation but `flip_variable` and `LCqm.flipF s lin v` for it.  From ANY reachable state, along ANY list of public
+    operations whose calls return normally (model arguments well formed, without BINARY/SPIN self-loops), EVERY step takes the
+    abstraction of the CQM to the value of that function at (the abstraction before the step, the `is_linear()` flags of the
+    constraints before the step): `ObsRun`.  Nothing relational is left: compare `history_refines_every_op` (`specRel`). -/
+theorem history_refines_every_op_function (pre ops : List Cqm.Op) (hpre : ∀ op ∈ pre, OpOK op) (hops : ∀ op ∈ ops, OpOK2 op)
+    (hsucc : Succeeds (({} : Cqm).run pre) ops) : ObsRun (({} : Cqm).run pre) ops := by
+  have hinv : RefInv (({} : Cqm).run pre) :=
+    ⟨history_inv pre hpre, history_labels pre, history_keysym pre hpre, history_sorted pre hpre⟩
+  exact obsRun_refines ops hinv hops hsucc
+
+/-- not vacuous, both outcomes of the BINARY branch on `demo` + a discrete constraint `d` over x, y: the first flip of `x`
+    makes `d` no longer one-hot, so `is_discrete()` is False when the marks are examined and the mark STAYS; the second flip
+    restores the one-hot form and the mark is cleared — the function gives the marks the model has, and `is_linear()` is what
+    it needs (with the flag forced to False nothing is cleared) -/
+example :
+    let m1 := demo.run [.addDiscreteVars [.str "x", .str "y"] (.str "d") true]
+    let m2 := (m1.step (.flipVariable (.str "x"))).1
+    let m3 := (m2.step (.flipVariable (.str "x"))).1
+    (((absCqm m1).flipF (linFlags m1) (.str "x")).map (·.cons.map (·.2.discrete))) = some (m2.cons.map (·.discrete))
+    ∧ (((absCqm m2).flipF (linFlags m2) (.str "x")).map (·.cons.map (·.2.discrete))) = some (m3.cons.map (·.discrete))
+    ∧ m2.cons.map (·.discrete) = [false, true] ∧ m3.cons.map (·.discrete) = [false, false]
+    ∧ (((absCqm m2).flipF [true, false] (.str "x")).map (·.cons.map (·.2.discrete))) = some [false, true]
+    ∧ ((absCqm m1).flipF (linFlags m1) (.str "nope")).isNone = true := by
   decide +kernel
 
 end C05
